@@ -143,6 +143,7 @@ def hygiene():
                 with open(p) as f:
                     for i, line in enumerate(f, 1):
                         code = re.sub(r"\(\*.*?\*\)", "", line)
+                        code = re.sub(r'"[^"]*"', '""', code)
                         if _HYG.search(code):
                             bad.append(f"{os.path.relpath(p, COQ)}:{i}: {line.strip()[:80]}")
     return bad
@@ -328,6 +329,10 @@ class Run:
                 print(f"VIOLATION property={self.prop} replay={path}")
             rc = 1
         broken = self.broken
+        if os.environ.get("VERIF_DEBUG"):
+            for mm in self.mismatches[:40]:
+                log("MISMATCH", json.dumps(mm, default=str)[:700])
+            log("BROKEN", broken)
         if (broken or self.mismatches) and n_viol == 0:
             # the property is no longer shown to hold, and no failing input was found
             path = self._write_replay("unproved", {
